@@ -409,8 +409,32 @@ func (l *Listener) Accept() (net.Conn, error) {
 	return c, nil
 }
 
+// UnlinkField is the name under which the race monitor keeps net.UnixListener's unlink flag: SetUnlinkOnClose writes
+// it, Close reads it, neither under a lock of the standard library.
+const UnlinkField = "net.UnixListener.unlink"
+
+// UnixListener is the controlled listener for a unix path address: it also answers what the library asks of
+// *net.UnixListener (vsched.UnixListener).
+type UnixListener struct {
+	*Listener
+	Unlink     bool
+	UnlinkSets int
+}
+
+func (u *UnixListener) SetUnlinkOnClose(b bool) {
+	vsched.Yield("lunlink", u.Listener, vsched.Always)
+	vsched.AccessNoYield(u.Listener, UnlinkField, true, "(*net.UnixListener).SetUnlinkOnClose")
+	u.Unlink = b
+	u.UnlinkSets++
+}
+
+func (u *UnixListener) File() (*os.File, error) {
+	return nil, opErr("file", fmt.Errorf("controlled listener has no descriptor"))
+}
+
 func (l *Listener) Close() error {
 	vsched.Yield("lclose", l, vsched.Always)
+	vsched.AccessNoYield(l, UnlinkField, false, "(*net.UnixListener).Close")
 	l.hook("close")
 	l.Closes++
 	if l.closed {
